@@ -620,6 +620,62 @@ func c15ClientLongEntries(msize uint32, dotu bool) Scenario {
 	}}
 }
 
+// c15OddNames: entries whose names are legal on the host and look special: only dots
+// (three and more), leading dots, blanks, a backslash, a star, 255 dots.
+func c15OddNames(msize uint32, dotu bool) Scenario {
+	name := fmt.Sprintf("dirread odd names msize=%d dotu=%v", msize, dotu)
+	return Scenario{Name: name, Run: func(rc *RunCtx) *Result {
+		res := &Result{Exhaustive: true}
+		base, root := scratchDir("c15o")
+		defer os.RemoveAll(base)
+		os.MkdirAll(filepath.Join(root, "dir"), 0o755)
+		var want []string
+		for _, n := range []string{"...", "....", ".....", strings.Repeat(".", 255), ".a", "..b", "a.", "a..", " ", "  ", "a b", "\\", "*", "?", "~", "-", "#", "%00", "\x7f", "\xff\xfe"} {
+			if os.WriteFile(filepath.Join(root, "dir", n), []byte("x"), 0o644) == nil {
+				want = append(want, n)
+			}
+		}
+		os.Mkdir(filepath.Join(root, "dir", "...d"), 0o755)
+		os.Mkdir(filepath.Join(root, "dir", "......"), 0o755)
+		want = append(want, "...d", "......")
+		sort.Strings(want)
+		var bad string
+		body := func() {
+			h := newUfsH(root, msize, dotu)
+			cl := h.Connect()
+			ver := "9P2000"
+			if dotu {
+				ver = "9P2000.u"
+			}
+			cl.Version(msize, ver)
+			cl.Rpc(tattach(1, 0, wire.NOFID, "", uint32(os.Geteuid()), dotu))
+			cl.Rpc(twalk(2, 0, 1, "dir"))
+			if r := cl.Rpc(&wire.Msg{Type: wire.Topen, Tag: 3, Fid: 1, Mode: 0}); r == nil || r.Type != wire.Ropen {
+				bad = "cannot open the directory"
+				return
+			}
+			for _, cnt := range []uint32{msize - 24, 400, 700} {
+				got, _, b := c15List(cl, dotu, 1, cnt, 10)
+				res.Evals++
+				sort.Strings(got)
+				if b != "" || strings.Join(got, "\x00") != strings.Join(want, "\x00") {
+					bad = fmt.Sprintf("count %d: the listing returned %d entries %q %s; the directory holds %d: %q", cnt, len(got), got, b, len(want), want)
+					return
+				}
+			}
+		}
+		x := vs.Run(nil, body, vs.Options{Horizon: 100000000})
+		if len(x.Panics) > 0 {
+			bad = "panic: " + x.Panics[0].Value
+		}
+		res.Nontrivial = res.Evals
+		if bad != "" {
+			res.Findings = append(res.Findings, Finding{Sig: "C15/odd-names/" + sigWords(bad), Msg: name + ": " + bad})
+		}
+		return res
+	}}
+}
+
 func c15Scenarios(tier string) []Scenario {
 	var out []Scenario
 	lens := []int{1, 2, 17, 255}
@@ -661,6 +717,7 @@ func c15Scenarios(tier string) []Scenario {
 	}
 	out = append(out, c15Vanishing(3, all(3), 512, true), c15Vanishing(40, all(40), 4120, false))
 	out = append(out, c15ClientLongEntries(8216, true), c15ClientLongEntries(65560, true), c15ClientLongEntries(8216, false))
+	out = append(out, c15OddNames(8216, true), c15OddNames(4120, false))
 	out = append(out, c15UnreadableLink(true, syscall.EACCES), c15UnreadableLink(true, syscall.ENOENT), c15UnreadableLink(false, syscall.EACCES))
 	for lo := 0; lo < 1200; lo += 300 {
 		out = append(out, c15LongTargets(8216, lo, lo+299, true))
